@@ -617,7 +617,8 @@ class TrenchColumn:
 
         # a single block is a Polygon, several blocks a MultiPolygon
         raw_blocks = list(getattr(trench_blocks, 'geoms', [trench_blocks]))
-        for block in listcast(sorted(raw_blocks, key=Trench)):
+        # number the blocks from the lowest y upwards
+        for block in sorted(raw_blocks, key=lambda blk: blk.bounds[1]):
             # buffer to round corners
             block = block.buffer(self.round_corner, resolution=256, cap_style=1)
             # simplify the shape to avoid path too much dense of points
